@@ -1,4 +1,5 @@
 import IndicatifModel.Proofs.Limiter
+import IndicatifModel.Proofs.GenBridge
 import IndicatifModel.Model.Bar
 /-!
 # C05 — Redraw throttling: bounded frame rate and bounded staleness
@@ -325,5 +326,58 @@ theorem C05_interval_fails_unrepaired :
 example : Sorted 7 [7, 7, 50000007, 50000008] ∧
     1 ≤ count (run (drawCfg LFix.current 20) { cap := 20, prev := 3 } [7, 7, 7, 50000007, 50000008]).1 := by
   refine ⟨⟨by omega, by omega, by omega, by omega, trivial⟩, by decide⟩
+
+end IndicatifModel.Limiter
+
+/-! ## The same statements about the definitions regenerated from the Rust sources
+
+`Generated.RateLimiter.allow`, `Generated.AtomicPosition.allow` and the constants are produced by
+`tools/rs2lean.py` from `src/draw_target.rs` / `src/state.rs` on every run (`none` = panic). -/
+namespace IndicatifModel.Limiter
+open Generated GenBridge
+
+/-- **C05, first clause, about the source as translated.** A draw target's limiter as `RateLimiter::new(R)`
+builds it (`R` in 1..=255, any stored capacity up to `MAX_BURST`, any `prev`), run over any sorted history
+of `u64` times starting no earlier than `prev`: no call panics, and `k` painted frames within `T` ns
+satisfy `(k − 21)·10⁹ ≤ R·T`, i.e. `k ≤ 20 + R·T[s] + 1`. -/
+theorem C05_source_window_bound (rate : Nat) (h1 : 1 ≤ rate) (h2 : rate < 256) (cap prev : Nat) (hcap : cap ≤ drawMaxBurst)
+    (ts : List Nat) (t1 : Nat) (hp : prev ≤ t1) (hs : Sorted t1 ts) (h64 : ∀ t ∈ t1 :: ts, t < 2 ^ 64) :
+    ∃ i bs r', RateLimiter.newInterval rate = some i ∧
+      runAll { interval := i, capacity := cap, prev := prev } (t1 :: ts) = some (bs, r') ∧
+      (count bs - 21) * 1000000000 ≤ rate * (lastTime t1 ts - t1) := by
+  have hi := rateLimiter_newInterval rate h1 h2
+  have ⟨hI, _⟩ := drawInterval_current rate h1
+  refine ⟨_, _, _, hi, runAll_eq (t1 :: ts) _ hI hcap h64, ?_⟩
+  exact C05_window_bound_stated rate h1 ts { cap := cap, prev := prev } t1 hp hs
+
+/-- **the translated limiters never panic**: `RateLimiter::allow` for every in-range state and `u64` time,
+`RateLimiter::new` for every rate but 0 (where `1_000_000_000 / 0` panics, as `1000 / 0` did in the pinned code),
+`AtomicPosition::allow` whenever `prev` is not in the future -/
+theorem C05_source_no_panic :
+    (∀ (r : RateLimiter) (now : Nat), 0 < r.interval → r.capacity ≤ drawMaxBurst → now < 2 ^ 64 → (r.allow now).isSome = true) ∧
+    (∀ rate, 1 ≤ rate → rate < 256 → (RateLimiter.newInterval rate).isSome = true) ∧ RateLimiter.newInterval 0 = none ∧
+    (∀ (a : AtomicPosition) (now : Nat), a.start ≤ now → now < 2 ^ 64 → a.capacity ≤ posMaxBurst → a.prev ≤ now - a.start →
+      (a.allow now).isSome = true) := by
+  refine ⟨rateLimiter_allow_no_panic, fun rate h1 h2 => by rw [rateLimiter_newInterval rate h1 h2]; rfl,
+    rateLimiter_new_zero_panics, fun a now hs hnow hcap hprev => by rw [atomicPosition_allow a now hs hnow hcap hprev]; rfl⟩
+
+/-- **the position gate of the source is the model's gate** (burst and interval are the source's constants), so
+`C05_gate_window_bound` and `C05_staleness` speak about `AtomicPosition::allow`; its hypotheses are kept by `allow` and `reset` -/
+theorem C05_source_gate (a : AtomicPosition) (now : Nat) (hs : a.start ≤ now) (hnow : now < 2 ^ 64)
+    (hcap : a.capacity ≤ posMaxBurst) (hprev : a.prev ≤ now - a.start) :
+    (∃ b a', a.allow now = some (b, a') ∧ b = (allow (posCfg LFix.current) (posSt a) (now - a.start)).1 ∧
+      posSt a' = (allow (posCfg LFix.current) (posSt a) (now - a.start)).2 ∧
+      a'.prev ≤ now - a'.start ∧ a'.capacity ≤ posMaxBurst ∧ a'.start = a.start) ∧
+    posCfg LFix.current = { I := posInterval, B := posMaxBurst, f6 := true } ∧
+    (∃ a', a.reset now = some ((), a') ∧ a'.prev ≤ now - a'.start ∧ a'.capacity = a.capacity ∧ a'.start = a.start) := by
+  have h := atomicPosition_allow a now hs hnow hcap hprev
+  have hk := atomicPosition_allow_prev a now hs hnow hcap hprev _ _ h
+  refine ⟨⟨_, _, h, rfl, rfl, hk.1, hk.2.1, hk.2.2.1⟩, posCfg_generated, ?_⟩
+  exact ⟨_, atomicPosition_reset a now hnow, Nat.le_refl _, rfl, rfl⟩
+
+/-- non-vacuity: a limiter as `new(20)` builds it, a burst of 30 calls after an idle period: 21 frames -/
+example : (runAll { interval := 50000000, capacity := 20, prev := 0 } (List.replicate 30 5049999999 ++ [5050000000])).map (fun p => count p.1)
+      = some 21 ∧ RateLimiter.newInterval 20 = some 50000000 := by
+  refine ⟨by decide +kernel, by decide⟩
 
 end IndicatifModel.Limiter
